@@ -831,16 +831,26 @@ impl<'a, W: Write> YamlSerializer<'a, W> {
     /// emit it on its own line before the node.
     #[inline]
     fn write_anchor_for_complex_node(&mut self) -> Result<()> {
-        if let Some(id) = self.pending_anchor_id.take() {
-            if self.at_line_start {
-                self.write_indent(self.depth)?;
-            }
-            self.write_space_if_pending()?;
-            self.out.write_char('&')?;
-            self.write_anchor_name(id)?;
+        if self.write_anchor_before_complex_node()? {
             self.newline()?;
         }
         Ok(())
+    }
+
+    /// If an anchor is pending for the next complex node (seq/map), emit it and stay on the line.
+    /// Returns whether an anchor was written; the caller has to end the line before the node.
+    fn write_anchor_before_complex_node(&mut self) -> Result<bool> {
+        let Some(id) = self.pending_anchor_id.take() else {
+            return Ok(false);
+        };
+        if self.at_line_start {
+            self.write_indent(self.depth)?;
+        }
+        self.write_space_if_pending()?;
+        self.out.write_char('&')?;
+        self.write_anchor_name(id)?;
+        self.at_line_start = false;
+        Ok(true)
     }
 
     /// Emit an alias `*name`. Adds a newline in block style.
@@ -1457,6 +1467,7 @@ impl<'a, 'b, W: Write> Serializer for &'a mut YamlSerializer<'b, W> {
                 depth: depth_next,
                 flow: true,
                 first: true,
+                after_anchor: false,
             })
         } else {
             // Block sequence. Decide indentation based on whether this is after a map key or after a list dash.
@@ -1488,11 +1499,10 @@ impl<'a, 'b, W: Write> Serializer for &'a mut YamlSerializer<'b, W> {
                 && !self.pending_space_after_colon;
             // If we are a mapping value (space after colon was pending), we will handle
             // the newline later in SeqSer::serialize_element to keep empty sequences inline.
-            self.write_anchor_for_complex_node()?;
+            // The same goes for the line break after an anchor (`- &a1` / `key: &a1`).
+            let after_anchor = self.write_anchor_before_complex_node()?;
             if inline_first {
                 // Keep staged inline (pending_inline_map) so the child can inline its first dash.
-                // Ensure we stay mid-line so the child can emit its first dash inline.
-                self.at_line_start = false;
             } else if was_inline_value {
                 // Mid-line start. If we are here due to a map value (after ':'), defer the newline
                 // decision until the first element is emitted so that empty sequences can stay inline
@@ -1531,6 +1541,7 @@ impl<'a, 'b, W: Write> Serializer for &'a mut YamlSerializer<'b, W> {
                 depth: depth_next,
                 flow: false,
                 first: true,
+                after_anchor,
             })
         }
     }
@@ -1752,6 +1763,9 @@ pub struct SeqSer<'a, 'b, W: Write> {
     flow: bool,
     /// Whether the next element is the first (comma handling in flow style).
     first: bool,
+    /// Whether the anchor of this (block) sequence was just written and the line is still open:
+    /// items start on the next line, while an empty sequence continues with ` []`.
+    after_anchor: bool,
 }
 
 impl<'a, 'b, W: Write> SerializeTuple for SeqSer<'a, 'b, W> {
@@ -1778,6 +1792,12 @@ impl<'a, 'b, W: Write> SerializeSeq for SeqSer<'a, 'b, W> {
             }
             self.ser.with_in_flow(|s| v.serialize(s))?;
         } else {
+            // An anchor took the rest of the line (`- &a1`): all items, the first one included,
+            // go to lines of their own and are indented.
+            if self.first && self.after_anchor {
+                self.ser.newline()?;
+                self.ser.pending_inline_map = false;
+            }
             // If we are the value of a mapping key, we deferred the newline until we knew the
             // sequence is non-empty. Insert it now before emitting the first dash.
             if self.first && self.ser.pending_space_after_colon {
@@ -1831,7 +1851,7 @@ impl<'a, 'b, W: Write> SerializeSeq for SeqSer<'a, 'b, W> {
             // Empty block-style sequence.
             if self.ser.empty_as_braces {
                 // If we were pending a space after a colon (map value position), write it now.
-                if self.ser.pending_space_after_colon {
+                if self.ser.pending_space_after_colon || self.after_anchor {
                     self.ser.out.write_str(" ")?;
                     self.ser.pending_space_after_colon = false;
                 }
